@@ -134,10 +134,12 @@ def run_case(i, rng, tier):
     state = ("live", "live", "merged", "reloaded")[i % 4]
     # boolean categories are legitimate Categorize keys (not together with reloaded operands: the C04 known finding
     # about True vs 'True' keys would leak into the final model comparison)
-    sopts = {"cat_bool": True} if state != "reloaded" else {}
+    sopts = {"cat_bool": True} if state not in ("reloaded", "zerobins") else {}
     stream = S.gen_stream(rng, sp, rng.randint(0, 8), sopts)
     if i % 10 == 7:
         state = "built"  # assembled by Stack.build / Fraction.build from filled trees
+    if i % 10 == 3 and sp["k"] in ("SparselyBin", "Categorize"):
+        state = "zerobins"
     proto = rng.choice([2, 3, 4, 5])
     failures = []
     counters = {"state:" + state: 1, "protocol:%d" % proto: 1}
@@ -155,6 +157,13 @@ def run_case(i, rng, tier):
         items += extra
     elif state == "reloaded":
         h = Factory.fromJson(json.loads(json.dumps(h.toJson())))
+    elif state == "zerobins":
+        # a live sparse container that holds a bin of zero entries (it came in with a merged partial result read from
+        # JSON): empty bins are content - they show in toJson, == and numFilled - and a clone has them too
+        z = h.zero().toJson()
+        z["data"]["bins"]["77" if sp["k"] == "SparselyBin" else "zz0"] = json.loads(json.dumps(R.ref_doc(sp["value"], [])["data"]))
+        h += Factory.fromJson(z)
+        counters["zero_entry_bins_injected"] = 1
     elif state == "built":
         bkind = rng.choice(["stack", "stack", "fraction"])
         bstreams = [stream] + [S.gen_stream(rng, sp, rng.randint(0, 4)) for _ in range(rng.randint(1, 2))]
@@ -163,7 +172,7 @@ def run_case(i, rng, tier):
         counters["built:" + bkind] = 1
         h = C.built_state(sp, bstreams, bkind)
         h0copy = h.copy()
-    fillable = state not in ("reloaded", "built")
+    fillable = state not in ("reloaded", "built", "zerobins")
 
     before = O.text(h)
     try:
@@ -366,7 +375,7 @@ def conclusive(agg):
     for fl in S.FLAVOURS:
         if fl not in agg.sets.get("flavours", ()):
             out.append("quantity flavour never generated: " + fl)
-    for c in ("state:live", "state:merged", "state:reloaded", "state:built", "built_merges", "bare_value_fills", "missing_field_fills", "builtin_quantity_cases", "lockstep_comparisons", "final_ghost_checks"):
+    for c in ("state:live", "state:merged", "state:reloaded", "state:built", "built_merges", "bare_value_fills", "missing_field_fills", "builtin_quantity_cases", "zero_entry_bins_injected", "lockstep_comparisons", "final_ghost_checks"):
         if not agg.counters.get(c):
             out.append("never exercised: " + c)
     miss = [k for k in S.ALL_KINDS if k not in agg.sets.get("kinds", ())]
